@@ -1,5 +1,6 @@
 import Csproto.Props.C04
 import Csproto.Proofs.GenRoundtrip
+import Csproto.Proofs.GenNestedRoundtrip
 /-
   C05 — Generated Marshal output is what the reference runtime would decode.
 
@@ -112,5 +113,29 @@ theorem records_decode_to_message (md : MD) (fs : List F) (hflat : FlatMD md) (h
 theorem presence_preserved (fd : FD) (v : V) (hc : fd.card = .explicit) :
     canonField fd .unset = .unset ∧ ∃ w, canonField fd (.one v) = .one w := by
   simp [canonField, initField, hc]
+
+/-! ### with message-typed fields (nested, repeated, recursive types) -/
+
+/-- what `Marshal` writes is exactly the record tree of the message: one record per set scalar element /
+    packed run, one length-delimited record per set message field or list element whose payload is the
+    record tree of that message, in declaration order at every level -/
+theorem marshal_record_tree (S : Schema) (md : MD) (fs : List F) (ops : List EncOp)
+    (hok : OKFields S md fs) (hcl : CleanFs fs) (ho : opsFields S md fs = .ok ops) :
+    Gen.wiresOf ops = wiresN (recsFields S 0 md fs) :=
+  ops_recsFields S 0 md fs ops hok hcl ho
+
+/-- every record of that tree is a well-formed record of a declared field (own number, wire type of its
+    kind, payload within the length limit), at every level -/
+theorem record_tree_well_formed (S : Schema) (hS : SchemaOK S) (i : Nat) (fs : List F) (hwf : WFs S (S.md i) fs) :
+    OKs S (S.md i) (recsFields S 0 (S.md i) fs) := by
+  have := recs_ok S hS (S.md i) (hS i).1 (fun fd hfd => ((hS i).2 fd hfd).2.1) (S.md i) fs [] rfl hwf
+  simpa using this
+
+/-- decoding that tree with the record rule gives the message back, presence included, at every level -/
+theorem record_tree_decodes_to_message (S : Schema) (hS : SchemaOK S) (i : Nat) (fs : List F) (ops : List EncOp)
+    (hwf : WFs S (S.md i) fs) (ho : opsFields S (S.md i) fs = .ok ops) :
+    foldN S (S.md i) (recsFields S 0 (S.md i) fs) (initFields (S.md i), []) = .ok (canonFs S (S.md i) fs, []) := by
+  have := fold_fields S hS (S.md i) [] (S.md i) fs [] ops (fun fd hfd => ((hS i).2 fd hfd).1) hwf ho
+  simpa [initFields] using this
 
 end Csproto.C05
